@@ -42,6 +42,7 @@ func (fx *FX) execInstr(st *State, in ssa.Instruction) {
 		if fx.privateAlloc(x) {
 			st.Priv[x] = [2]T{st.H, st.Hs}
 			fx.privByRef[r.S] = x
+			fx.privStore(st, x, num(0), zeroLeaves(elem))
 		}
 		if x.Comment != "" {
 			if _, dup := fx.names[x.Comment]; !dup {
@@ -144,6 +145,7 @@ func (fx *FX) execInstr(st *State, in ssa.Instruction) {
 		fx.storeLeaves(st, p.Ref, p.Off, x.Val.Type(), flatten(fx.val(x.Val)))
 		if a := fx.privRoot(x.Addr); a != nil {
 			st.Priv[a] = [2]T{st.H, st.Hs}
+			fx.privStore(st, a, p.Off, flatten(fx.val(x.Val)))
 		}
 	case *ssa.UnOp:
 		fx.execUnOp(st, x)
@@ -291,7 +293,9 @@ func (fx *FX) execUnOp(st *State, x *ssa.UnOp) {
 			s0.H, s0.Hs = fx.entry.H, fx.entry.Hs
 			fx.vals[x] = fx.load(s0, p, x.Type(), x.Name())
 		} else if a := fx.privRoot(x.X); a != nil {
-			if v, ok := st.Priv[a]; ok {
+			if ts, ok := fx.privLoad(st, a, p.Off, len(layout(x.Type()))); ok {
+				fx.vals[x], _ = unflatten(x.Type(), ts)
+			} else if v, ok := st.Priv[a]; ok {
 				s0 := st.clone()
 				s0.H, s0.Hs = v[0], v[1]
 				fx.vals[x] = fx.load(s0, p, x.Type(), x.Name())
